@@ -189,6 +189,11 @@ def fixed_cases():
                          (base + "\n" + blk + "\n", ["block-comment", "trivia-after-last-token"]),
                          (" ".join(toks[:9]) + blk + " ".join(toks[9:]), ["block-comment"])]
         yield {"prog": prog, "inputs": inputs, "variants": [{"text": t, "tags": g} for t, g in variants], "noise": None}
+    # any NUMBER of comments: thousands in one gap, dozens in every gap, thousands of lines in one comment
+    many = [("/* c */" * 2500).join([" ".join(toks[:5]), " ".join(toks[5:])]), (" /* c */ /**/ " * 40).join(toks), ("// c\n" * 3000) + base,
+            base + ("\n// c" * 3000), ("/*" + "line\n" * 5000 + "*/").join([" ".join(toks[:9]), " ".join(toks[9:])]),
+            (" /* a */ // b\n /* c\n */ " * 25).join(toks)]
+    yield {"prog": prog, "inputs": inputs, "variants": [{"text": t, "tags": ["block-comment", "many-comments"]} for t in many], "noise": None}
 
 
 def run(ctx, rec):
